@@ -5,6 +5,13 @@ CONSTRUCTS = {
     "nested-closure": 'f a: Nat =\n    g b: Nat =\n        h c: Nat = a + b + c\n        h\n    g\nprint! f(1)(2)(3)\n',
     "keyword-call": 'f x: Nat, y: Nat := 10 = x + y\nprint! f(1)\nprint! f(1, y := 2)\nprint! f(x := 3, y := 4)\n',
     "star-call": 'f(*xs: Nat) = len xs\nprint! f(1, 2, 3)\nprint! f()\n',
+    # argument spreading at the CALL site: every combination of plain positional arguments before a *spread / **spread
+    # (each target version builds the argument tuple / dict with different opcodes)
+    "spread-only": 'f(*xs: Nat) = len xs\nrest = [7, 8]\nprint! f(*rest)\n',
+    "spread-after-one-positional": 'f(*xs: Nat) = len xs\nrest = [7, 8]\nprint! f(4, *rest)\n',
+    "spread-after-two-positionals": 'f(*xs: Nat) = len xs\nrest = [7, 8]\nprint! f(4, 5, *rest)\n',
+    "kw-spread-only": 'g(x: Nat, y: Nat := 1) = x + y\nd = {"x": 2, "y": 3}\nprint! g(**d)\n',
+    "kw-spread-after-positional": 'g(x: Nat, y: Nat := 1) = x + y\nd = {"y": 3}\nprint! g(2, **d)\n',
     "print-sep": 'print! 1, 2, sep := "-"\nprint! "a", "b", end := "!\\n"\n',
     "list-comprehension": 'l = [i * 2 | i <- 0..<4]\nprint! l\n',
     "class-definition": 'C = Class {x = Nat}\nC.\n    get self = self::x\n    add self, y: Nat = self::x + y\nc = C.new {x = 3}\nprint! c.get()\nprint! c.add(4)\n',
